@@ -60,9 +60,13 @@ pub fn run(ctx: &mut Ctx, prop: &str) {
         let r = render(&real, b);
         ctx.count(&format!("kind.{}", kind(&q)));
         ctx.count(if r.is_some() { "render.ok" } else { "render.panic" });
-        let exp = expect_line(&r);
+        // the model also reports whether its rendering satisfies `Safe`, the hypothesis of the C01 / C02 theorems:
+        // required of every tame statement whose caller-supplied raw text is plain (no quoted parts, no bracketed template mark); not compared otherwise
+        let must_be_safe = tame && r.is_some() && !g.bracket_mark && !g.raw_quoted;
+        let exp = if must_be_safe { format!("{} safe:11", expect_line(&r)) } else { expect_line(&r) };
         let sq = recipe.clone();
-        ctx.case(format!("stmt {} {}", b.name(), recipe), exp, true, &move || format!("{} {}", b.name(), sq));
+        if must_be_safe { ctx.count("safe.required"); ctx.case(format!("stmt {} {}", b.name(), recipe), exp, true, &move || format!("{} {}", b.name(), sq)); }
+        else { ctx.case_norm(format!("stmt {} {}", b.name(), recipe), exp, true, &move || format!("{} {}", b.name(), sq), Box::new(|m: &str| match m.rfind(" safe:") { Some(i) => m[..i].to_string(), None => m.to_string() })); }
         let Some(r) = r else { continue };
         ctx.count(&format!("values.{}", match r.values.len() { 0 => "0", 1..=3 => "1-3", 4..=9 => "4-9", _ => "10+" }));
 
@@ -92,7 +96,7 @@ pub fn run(ctx: &mut Ctx, prop: &str) {
         let class = if g.bracket_mark && b != B::Sqlite { Some("C01.template_mark_inside_brackets") } else { None };
 
         // ---- C01: placeholders outside quoted text correspond one-to-one, in order, to the values
-        match reflex::lex(b, &r.sql) {
+        if prop == "C01" { match reflex::lex(b, &r.sql) {
             Err(e) => ctx.oracle_fail("the parameterised SQL does not lex under the engine's lexical rules", serde_json::json!({"backend": b.name(), "recipe": recipe, "sql": r.sql, "error": e})),
             Ok(toks) => {
                 let ps = reflex::params(&toks);
@@ -103,7 +107,10 @@ pub fn run(ctx: &mut Ctx, prop: &str) {
                 }
                 let _ = toks.iter().filter(|t| matches!(t, Tok::Str(_))).count();
             }
-        }
+        } }
+        // C02 presupposes C01: where a template mark inside [..] already breaks the placeholder / value correspondence
+        // (open finding of C01) there is nothing to substitute
+        if prop != "C02" || class.is_some() { continue; }
         // ---- C02: inline text = parameterised text with the i-th placeholder replaced by the i-th value's literal
         let lits: Vec<String> = r.values.iter().map(|v| crate::sq::value_to_string(b, v).unwrap_or_default()).collect();
         match substitute(b, &r.sql, &lits) {
@@ -112,5 +119,4 @@ pub fn run(ctx: &mut Ctx, prop: &str) {
             Err(e) => ctx.oracle_fail("substitution failed", serde_json::json!({"class": class, "backend": b.name(), "recipe": recipe, "build": r.sql, "error": e})),
         }
     }
-    let _ = prop;
 }
